@@ -11,8 +11,8 @@ NA = {
 }
 
 CLAIMS = {
- "C09": dict(design="§2 C09", technique="E-EFF identification of returned witness slices + E-PROVE reachability of their populating stores and of a zero allocation length; E-EFF read-only graph argument",
-   text="Narrow structural necessary condition of 'come with valid witnesses': a witness slice that ChromaticIndex, ChromaticNumber/dfsDsatur, GreedyColor, IsKColorable or Degeneracy allocates and returns is not allocated with provably zero length and has at least one statically reachable populating store; none of the invariant functions writes its graph argument. Optimality, exactness and properness are not decided.",
+ "C09": dict(design="§2 C09", technique="E-EFF identification of returned witness slices + E-PROVE reachability of their populating stores and of a zero allocation length; E-EFF read-only graph argument; E-EFF + CFG immutability of slices sent on the result channel (EMIT)",
+   text="Narrow structural necessary condition of 'come with valid witnesses': a witness slice that ChromaticIndex, ChromaticNumber/dfsDsatur, GreedyColor, IsKColorable or Degeneracy allocates and returns is not allocated with provably zero length and has at least one statically reachable populating store; none of the invariant functions writes its graph argument; a clique that AllMaximalCliques has sent on its result channel is never written again (every write that may reach a sent backing array goes through the current iteration's own allocation). Optimality, exactness and properness are not decided.",
    note="A witness whose every store is dead or whose length is provably 0 is wrong for every non-empty input."),
  "C05": dict(design="§2 C05", technique="CFG path rule over E-EFF write attribution (COUPLE), exact SSA pattern rule for single-edge methods, E-EFF freshness/purity, E-PROVE packed-triangle discipline (TRI), use-site rule for adjacency bytes (EDGEBYTE), row-ownership rule (ROWS)",
    text="Decides three structural clauses for every edit history: adjacency storage is never changed on a path that leaves NumberOfEdges or DegreeSequence unwritten, and the single-edge methods update count and both endpoint degrees with the matching sign; Copy/InducedSubgraph results share no memory with their source and write nothing reachable from it; every index into DenseGraph.Edges in the representation's own methods is the lower-triangle cell of the two vertices named (0 <= I < J proved); adjacency bytes of an existing graph are only tested against zero (never used numerically); every SparseGraph row owns its backing array. Does not decide agreement with the adjacency-set model.",
